@@ -40,21 +40,21 @@ __CPROVER_requires(len > 0)
 __CPROVER_requires(__CPROVER_w_ok(dest, len))
 __CPROVER_requires(__CPROVER_r_ok(src, len))
 __CPROVER_assigns(__CPROVER_object_upto(dest, len))
-__CPROVER_ensures(gk < len ==> ((uint8_t *)dest)[gk] == __CPROVER_old(gk < len ? ((const uint8_t *)src)[gk] : (uint8_t)0))
+__CPROVER_ensures(gk < len ==> ((uint8_t *)dest)[gk] == __CPROVER_old(((const uint8_t *)src)[gk * (size_t)(gk < len)]))
 ;
 void mem_prim_move8(uint8_t *dest, const uint8_t *src, uint32_t len)
-__CPROVER_requires(len == 0 || (__CPROVER_w_ok(dest, len) && __CPROVER_r_ok(src, len)))
+__CPROVER_requires(len > 0 && __CPROVER_w_ok(dest, len) && __CPROVER_r_ok(src, len))
 __CPROVER_assigns(__CPROVER_object_upto(dest, len))
-__CPROVER_ensures(gk < len ==> dest[gk] == __CPROVER_old(gk < len ? src[gk] : (uint8_t)0))
+__CPROVER_ensures(gk < len ==> dest[gk] == __CPROVER_old(src[gk * (size_t)(gk < len)]))
 ;
 void mem_prim_move16(uint16_t *dest, const uint16_t *src, uint32_t len)
-__CPROVER_requires(len == 0 || (__CPROVER_w_ok(dest, (size_t)len * 2) && __CPROVER_r_ok(src, (size_t)len * 2)))
+__CPROVER_requires(len > 0 && __CPROVER_w_ok(dest, (size_t)len * 2) && __CPROVER_r_ok(src, (size_t)len * 2))
 __CPROVER_assigns(__CPROVER_object_upto(dest, (size_t)len * 2))
-__CPROVER_ensures(gke < len ==> dest[gke] == __CPROVER_old(gke < len ? src[gke] : 0))
+__CPROVER_ensures(gke < len ==> dest[gke] == __CPROVER_old(src[gke * (size_t)(gke < len)]))
 ;
 void mem_prim_move32(uint32_t *dest, const uint32_t *src, uint32_t len)
-__CPROVER_requires(len == 0 || (__CPROVER_w_ok(dest, (size_t)len * 4) && __CPROVER_r_ok(src, (size_t)len * 4)))
+__CPROVER_requires(len > 0 && __CPROVER_w_ok(dest, (size_t)len * 4) && __CPROVER_r_ok(src, (size_t)len * 4))
 __CPROVER_assigns(__CPROVER_object_upto(dest, (size_t)len * 4))
-__CPROVER_ensures(gke < len ==> dest[gke] == __CPROVER_old(gke < len ? src[gke] : 0))
+__CPROVER_ensures(gke < len ==> dest[gke] == __CPROVER_old(src[gke * (size_t)(gke < len)]))
 ;
 #endif
